@@ -39,6 +39,8 @@ def base_layouts(n):
     yield "line", [" "] * (n - 1)
     yield "tokperline", ["\n"] * (n - 1)
     yield "indented", [("\n    " if i % 3 == 2 else "  ") for i in range(n - 1)]
+    # blank lines that contain blanks and tabs between the tokens
+    yield "blanklines", [("\n  \n\t\n " if i % 2 == 0 else " \n \t \n") for i in range(n - 1)]
 
 
 def walk(node, out, parent=None):
@@ -213,7 +215,7 @@ def _work(task):
         ok_any = False
         for lname, _ in base_layouts(nt):
             gaps = [None] + list(range(nt + 1))
-            if lname != "indented":
+            if lname not in ("indented", "blanklines"):
                 gaps += [("reset", k) for k in range(1, nt + 1)]
             for g in gaps:
                 acc, fl = evaluate(toks, lname, g, counts)
